@@ -526,6 +526,13 @@ func (s *Server) pushReq(ctx context.Context, wantID bool, method string, params
 		P:  bits,
 	}})
 	bytesWrittenCount.Add(int64(nw))
+	if err != nil && rsp != nil {
+		// The call was not sent, so the caller will not wait for a reply.
+		// Withdraw it and release the goroutine watching its context.
+		delete(s.call, rsp.id)
+		rsp.cancel()
+		return nil, err
+	}
 	return rsp, err
 }
 
